@@ -10,9 +10,9 @@ COMMON_NOTE = ('Trusted: Coq 8.16.1 kernel incl. vm_compute (no native_compute);
 CLAIMS = {
  'C01': ('67 data-processing opcode classes (ADC..TST, shifts, moves; immediate / register / register-shifted-register) '
          'each proved equal to one semantic function dp_sem (A8.8 pseudocode: Shift_C, AddWithCarry, flags, ALUWritePC) '
-         'for every operand value, flag state, mode, architecture version; frame of dp_sem proved once; ADR (incl. Rd = PC) and MOVT proved separately. End to end (Props/C01step.v): for any immediate-operand data-processing encoding with Rd != PC, one emulate_cycle proved to end in dp_sem, ITAdvance inside an IT block and PC + instruction length; the same for any operand form and for the comparisons; every hypothesis but the fetch discharged for 92 encodings — the 16-bit Thumb shifts by immediate, MOV (register) and RRX, the ARM register-shifted-register comparisons, the 32-bit Thumb comparisons, the ARM register comparisons, ten 32-bit Thumb modified-immediate and ten shifted-register forms, the ARM shifts by immediate, ARM AND/EOR/SUB/RSB/ADD/ADC/SBC/RSC/ORR/BIC in their immediate, register and register-shifted-register forms, MOV/MVN and TST/TEQ/CMP/CMN immediate, and fifteen 16-bit Thumb encodings (flags = !InITBlock()) — each on the whole cube of the encoding, for every state, with concrete machines meeting the hypotheses.',
+         'for every operand value, flag state, mode, architecture version; frame of dp_sem proved once; ADR (incl. Rd = PC) and MOVT proved separately. End to end (Props/C01step.v): for any immediate-operand data-processing encoding with Rd != PC, one emulate_cycle proved to end in dp_sem, ITAdvance inside an IT block and PC + instruction length; the same for any operand form and for the comparisons; every hypothesis but the fetch discharged for all 146 concrete encodings of the 67 classes (Props/C01step.v, Props/C01step2.v) — the SP-relative ADD/SUB in ARM, 16-bit and 32-bit Thumb, MOVW, ADDW/SUBW, MVN in every form, the shifts by register, the 16-bit high-register ADD/CMP/MOV, the 32-bit Thumb shifted-register comparisons, MOV.W / RRX / shifts by immediate in 32-bit Thumb, the 16-bit Thumb shifts by immediate, MOV (register) and RRX, the ARM register-shifted-register comparisons, the 32-bit Thumb comparisons, the ARM register comparisons, ten 32-bit Thumb modified-immediate and ten shifted-register forms, the ARM shifts by immediate, ARM AND/EOR/SUB/RSB/ADD/ADC/SBC/RSC/ORR/BIC in their immediate, register and register-shifted-register forms, MOV/MVN and TST/TEQ/CMP/CMN immediate, and fifteen 16-bit Thumb encodings (flags = !InITBlock()) — each on the whole cube of the encoding, for every state, with concrete machines meeting the hypotheses.',
          'Scope: execute() of the opcode classes with condition passed (C05 covers the failing case) and field ranges as '
-         'produced by decode; the decode of operands is proved per encoding under C06/C07 and composed with these theorems for 92 encodings; for ADD (immediate) in ARM and in 16-bit Thumb also with the fetch discharged on flat memory (C01_add_imm_a1_closed, C01_add_imm_t1_closed, and C01_and_imm_t1_closed for a 32-bit Thumb encoding: no hypothesis about any stage is left).'),
+         'produced by decode; the decode of operands is proved per encoding under C06/C07 and composed with these theorems for all 146 encodings (register fields r0-r12 and pairwise different where the encoding has UNPREDICTABLE register rules); for ADD (immediate) in ARM and in 16-bit Thumb also with the fetch discharged on flat memory (C01_add_imm_a1_closed, C01_add_imm_t1_closed, and C01_and_imm_t1_closed for a 32-bit Thumb encoding: no hypothesis about any stage is left).'),
  'C02': ('36 single-register load/store classes proved equal to the architecture pseudocode (Spec/LoadStore.v, Spec/LoadStoreUnpriv.v) with MemU / MemU_unpriv instantiated by the emulator (C13/C14): LDR/LDRB/LDRH/LDRSB/LDRSH and STR/STRB/STRH in their immediate and register forms, ARM and Thumb, the five literal (PC-relative) loads, and the unprivileged LDRT/LDRBT/LDRHT/LDRSBT/LDRSHT/STRT/STRBT/STRHT: address for offset/pre/post-indexed forms modulo 2^32, width, destination value (incl. legacy rotation, zero/sign extension, UNKNOWN = 0 on a misaligned access without unaligned support), base write-back only after a successful access, loads to the PC via LoadWritePC of the loaded word; the memory hypotheses are shown satisfiable on flat maps. End to end (Props/C02step.v): for STR and LDR (immediate, ARM A1; offset, pre- and post-indexed), on every word of the encoding and every state, one emulate_cycle is the architectural STORE / LOAD through MemU followed by write-back, ITAdvance and the PC advance, and on an abort exactly the exception entry with no write-back and no advance; for STR also with fetch and memory discharged on a flat map (C02_str_imm_a1_closed) and a concrete machine meeting the hypotheses.',
          'LDRD/STRD (immediate, register, literal; two words through MemA or one 64-bit access with LPAE) and the eight exclusive loads/stores (on the emulator\'s mock monitors, which never pass) are proved too (Props/C02dual.v, C02excl.v). Partial: register numbers are bounded as the encodings guarantee (Rt <= 14 where a PC destination is UNPREDICTABLE); Hyp mode is excluded for the unprivileged forms (UNPREDICTABLE); operand extraction of the encodings is checked under C06/C07.'),
  'C03': ('every member of the block-transfer family proved equal to the architectural loops by induction over the register list, for every register mask, base, W bit and state: LDM/STM in all four addressing modes (IA, DA, DB, IB; ARM and Thumb LDM), PUSH, POP, LDM/STM (user registers), LDM (exception return), RFE and SRS (ARM/Thumb): start address and written-back base per mode, lowest register at the lowest address, consecutive words modulo 2^32, PC last, write-back only after all accesses succeeded, UNKNOWN stored for a written-back base that is not lowest (the code\'s lowest-set-bit helper proved equal to the specification\'s on all 65535 non-empty lists), the user bank for the user-register forms, the banked SP of the target mode for SRS, CPSRWriteByInstr + BranchWritePC for the return forms; the invariant they need is shown to hold on flat maps for ordinary register writes.',
